@@ -138,17 +138,17 @@ func c16Limits(c *Ctx) {
 			{"inside a list the size is compared with the list remainder", `^\(s\.size > call:\(\*lib/rlp\.Stream\)\.listLimit\(s\)#1\)$`, `^call:\(\*lib/rlp\.Stream\)\.listLimit\(s\)#0$`},
 			{"with an input limit the size is compared with the remaining input", `^\(s\.size > s\.remaining\)$`, `^s\.limited$`},
 		} {
-			tests := findInstrs(fn, IfOn(t.cond))
+			// the comparison itself, wherever it is evaluated (an if condition, or an operand of && in a switch case)
+			tests := findInstrs(fn, func(in ssa.Instruction) bool {
+				b, ok := in.(*ssa.BinOp)
+				return ok && re(t.cond).MatchString(pathOf(b))
+			})
 			ok := len(tests) == 1
 			if ok {
 				dc := domConds(tests[0])
 				ok = hasCond(dc, `^\(s\.kinderr == nil\)=T$`) && hasCond(dc, t.flag[:len(t.flag)-1]+`=T$`)
 				// and nothing else decides whether the test is made
-				for _, d := range dc {
-					if !re(`^\(s\.kinderr == nil\)=T$|^\(s\.kind >= const:0\)=F$|listLimit\(s\)#0=|^\(call:\(\*lib/rlp\.Stream\)\.listLimit\(s\)#1 == const:0\)=F$|^s\.limited=T$|^\(s\.size > call:\(\*lib/rlp\.Stream\)\.listLimit\(s\)#1\)=F$`).MatchString(d) {
-						ok = false
-					}
-				}
+				ok = ok && onlyConds(dc, `^\(s\.kinderr == nil\)=T$|^\(s\.kind >= const:0\)=F$|listLimit\(s\)#0=|^\(call:\(\*lib/rlp\.Stream\)\.listLimit\(s\)#1 == const:0\)=F$|^s\.limited=T$|^\(s\.size > call:\(\*lib/rlp\.Stream\)\.listLimit\(s\)#1\)=F$|^phi\(\(s\.size > call:\(\*lib/rlp\.Stream\)\.listLimit\(s\)#1\)\|const:false\)=F$`)
 			}
 			c.Check("G", fnName(fn)+"/"+t.desc, ok, fn.Pos(), len(tests), "")
 		}
